@@ -28,7 +28,11 @@ RULE = ("files are rendered from a cell grammar {empty, plain, leading/trailing 
         "{1, 2, ample}; all-empty-cell files (index buffer fills before the window ends); kernel-level: every byte string over "
         "{x , \" \\n blank} up to length 6 (quick) / 7 (thorough) with and without header, entry at every offset. Seeded random: "
         "files up to 300 rows (quick) / 5000 rows (thorough) with random chunk_row_size, budgets, include/exclude lists, fixed "
-        "and indexed string columns through the public read_csv path. Non-trivial = the model made more than one kernel call, "
+        "and indexed string columns through the public read_csv path. Regrowth ladders (seed independent): one cell of 1, 2, 4, 8 "
+        "(+-1) value budgets (budget 1, 2, 3) - bare, quoted, quoted with the doubled quote on the byte that fills the budget - in "
+        "the first / middle / last of three records, 1-2 columns, smallest supported chunk_row_size, the next one and one window; "
+        "files whose first windows are filled by records of empty cells (index buffer full) followed by a long cell (both buffers "
+        "grow in one run). The driver op also compares the full flag of every kernel call. Non-trivial = the model made more than one kernel call, "
         "or the file has a quoted cell or a blank-led cell; distinct = distinct case line.")
 ASSUMPTIONS = [
     "supported regime of the property: every record (and the header line) fits in the byte window 2*chunk_row_size*columns; "
@@ -45,16 +49,26 @@ TRUSTED = ["Lean 4.33 kernel", "axioms: propext, Classical.choice, Quot.sound on
 LEVEL_TEXT = ("Kernel-checked theorems, for all well-formed files of any size, about the executable model of fast_csv_reader / "
               "read_file_using_fast_csv_reader / IndexedStringImporter / read_csv_with_schema_dict: (1) one kernel call on any window "
               "of the supported regime (complete records followed by any prefix of the next record, entered at any record boundary) "
-              "reports exactly the complete records, resumes at the start of the unfinished one, touches no memory outside its "
-              "arrays and terminates; (2) the whole driver loop, for every chunk_row_size in the supported regime and any number of "
-              "windows, yields exactly the reference records column by column (so the result does not depend on chunk_row_size), "
-              "provided no staging buffer fills; (3) include/exclude select exactly the named columns. The runs in which a staging "
-              "buffer fills and is enlarged (regrowth) are validated by exhaustive small-scope and random differential execution of "
-              "model, code and reference parser, not proved.")
-LEVEL_NOTE = ("window_chunking_unobservable is proved as window_chunking_unobservable_partial under two explicit no-regrowth hypotheses "
-              "(every column fits its value budget; no record consists of empty cells only, so the index buffer never fills); "
-              "regrowth_unobservable (and the full statement without those hypotheses) is stated in Props/C05.lean as a comment and "
-              "supported by the correspondence run only. The model mirrors the code with fix patches D26, NC05a, NC05b, D27 applied.")
+              "with ANY staging buffers (every value budget >= 1 byte, >= 1 index row, stale contents) touches no memory outside its "
+              "arrays, terminates, reports exactly the first a complete records and resumes behind them, and ends in one of three "
+              "ways: no flag (a = all complete records), indices full (a = index rows), values full in column j (budget of j <= bytes "
+              "of column j in the first a+1 records); (2) the whole driver loop, for every chunk_row_size in the supported regime, "
+              "every starting budgets >= 1, any number of windows and any number of index-buffer / value-buffer regrowths "
+              "(re-entry inside the held window with doubled buffers), yields exactly the reference records column by column within "
+              "records + 2 + regrowthBound kernel calls (regrowthBound = sum of log2-many doublings per buffer) - so the result "
+              "depends neither on chunk_row_size nor on how the buffers had to grow; the same for read_csv_with_schema_dict with the "
+              "budgets it computes; (3) include/exclude select exactly the named columns.")
+LEVEL_NOTE = ("window_chunking_unobservable, regrowth_unobservable, chunk_size_unobservable and read_csv_eq_spec are proved at full "
+              "strength (hypotheses: well-formed RFC-4180 table with a header line, chunk_row_size > 0, every line fits the byte window "
+              "2*chunk_row_size*columns; for the driver-level theorems additionally every starting value budget >= 1, which "
+              "read_csv_with_schema_dict guarantees since fix NC05b; read_csv_eq_spec is about columns imported as text - typed "
+              "conversion is C06). The earlier _partial forms (two no-regrowth hypotheses, call bound records + 2) are kept as "
+              "obligations. Termination is by the measure (lines behind the window start) + (doublings until the index buffer exceeds "
+              "the record count) + sum over columns (doublings until the budget exceeds the column's bytes). The correspondence run "
+              "additionally compares, per kernel call of the driver, the full flag returned by the real fast_csv_reader with the "
+              "model's (regrowth path), and measures regrowth coverage (regrow-* tags). In the supported regime the index buffer can "
+              "fill at most once per import (a window holds at most 2*chunk_row_size records). The model mirrors the code with fix "
+              "patches D26, NC05a, NC05b, D27 applied.")
 TECHNIQUE = "Lean 4 theorems over an executable model + differential correspondence with the real code"
 EXPLANATION = ""
 
@@ -300,6 +314,10 @@ def gen_cases(tier, rng):
                 for crs in (1, 2, 3):
                     if supported(data, crs, ncols):
                         cases.append(mk_driver(data, ncols, crs, [1] * ncols))
+    # ---- 2b. regrowth ladders: a cell of 1, 2, 4, 8 (+-1) budgets -> 1, 2, 3, 4 value-buffer doublings without a completed
+    #          record in between; bare, quoted, quoted with the doubled quote on the byte that fills the budget; in the first,
+    #          a middle or the last record; also behind records of empty cells that fill the index buffer first
+    cases.extend(regrowth_cases(quick))
     # ---- 3. the public path: read_csv_with_schema_dict into HDF5 (indexed and fixed columns, include / exclude)
     cases.extend(import_cases(rng, 150 if quick else 3000))
     # ---- 4. kernel level: every byte string over a 5-letter alphabet, header or not, ample and tiny budgets
@@ -330,6 +348,53 @@ def gen_cases(tier, rng):
     for t in range(400 if quick else 12000):
         cases.append(random_driver_case(rng, big=(t % 50 == 0), huge=(not quick and t % 3000 == 7)))
     return cases
+
+
+def regrowth_cases(quick):
+    out = []
+    seen = set()
+    for b in (1, 2, 3):
+        for mult in (1, 2, 4, 8):
+            for delta in (-1, 0, 1):
+                ln = b * mult + delta
+                if ln < 1:
+                    continue
+                texts = [(False, b"x" * ln), (True, b"y" * ln), (True, b"y" * (ln - 1) + b'"'), (True, b'"' * ln),
+                         (True, (b"z,\n" * ln)[:ln])]
+                for ncols in (1, 2):
+                    for pos in (0, 1, 2):
+                        for ti, cell in enumerate(texts):
+                            if quick and (ti + pos + mult) % 2:
+                                continue
+                            rows = [[KINDS["plain"] if c == 0 else KINDS["empty"] for c in range(ncols)] for _ in range(3)]
+                            rows[pos][ncols - 1] = cell
+                            data = render(NAMES[:ncols], rows, final_nl=(pos + ti) % 3 != 0)
+                            lo = min_crs(data, ncols)
+                            for crs in (lo, lo + 1, max(lo, len(data))):
+                                key = (data, crs, b)
+                                if key in seen:
+                                    continue
+                                seen.add(key)
+                                out.append(mk_driver(data, ncols, crs, [b] * ncols, why="regrowth ladder"))
+    # index buffer full (a window of 2*crs records of empty cells), then a long cell: both buffers grow in one run
+    for ncols in (1, 2):
+        for crs in (1, 2, 3):
+            w = 2 * crs * ncols
+            for lead in (0, 1, 2):                    # complete windows of empty records in front
+                for ln in (1, 2, 4, 9):
+                    if ln + ncols > w:
+                        continue
+                    hdr_pad = NAMES[:ncols]
+                    # pad the header line so that it fills exactly one window: the next windows start at a record start
+                    hlen = len(b",".join(hdr_pad)) + 1
+                    if hlen > w:
+                        continue
+                    rows = [[KINDS["empty"]] * ncols for _ in range((lead + 1) * 2 * crs)]
+                    rows.append([(False, b"q" * ln)] + [KINDS["empty"]] * (ncols - 1))
+                    data = render(hdr_pad, rows)
+                    if supported(data, crs, ncols):
+                        out.append(mk_driver(data, ncols, crs, [1] * ncols, why="index buffer full, then value buffer ladder"))
+    return out
 
 
 def random_file(rng, ncols, nrows, kinds=None, numcols=()):
@@ -472,9 +537,22 @@ def impl(case):
         try:
             recs = [_Rec() for _ in case["index_map"]]
             offs = np.array(case["offs"], dtype=np.int64)
-            n = e["m"].read_file_using_fast_csv_reader(name, case["crs"], offs, list(case["index_map"]), recs, None)
+            # the full flag every kernel call returned (0 none, 1 indices full, 2 values full): the module attribute is
+            # wrapped for the duration of this call only (no change to /repo)
+            kernel, flags = e["m"].fast_csv_reader, []
+
+            def recording(*a):
+                r = kernel(*a)
+                flags.append(1 if r[2] else (2 if r[3] else 0))
+                return r
+            e["m"].fast_csv_reader = recording
+            try:
+                n = e["m"].read_file_using_fast_csv_reader(name, case["crs"], offs, list(case["index_map"]), recs, None)
+            finally:
+                e["m"].fast_csv_reader = kernel
             calls = recs[0].calls if recs else None
-            return {"rows": int(n), "calls": calls, "cols": [{"idx": r.idx, "vals": list(r.vals)} for r in recs]}
+            return {"rows": int(n), "calls": calls, "flags": flags,
+                    "cols": [{"idx": r.idx, "vals": list(r.vals)} for r in recs]}
         finally:
             os.unlink(name)
     if op == "csv_import":
@@ -533,6 +611,12 @@ def compare(case, io_, mo, mode):
             return f"impl rows={io_['rows']} cols={str(io_['cols'])[:200]}  model rows={m['rows']} cols={str(m['cols'])[:200]}"
         if io_["calls"] is not None and io_["calls"] != m["calls"]:
             return f"kernel call trace differs: impl={io_['calls']} model={m['calls']}"
+        if "flags" in io_ and "flags" in m and io_["flags"] != m["flags"]:
+            return f"full-flag trace of the kernel calls differs (regrowth path): impl={io_['flags']} model={m['flags']}"
+        bound = call_bound(case)
+        if bound is not None and "flags" in io_ and len(io_["flags"]) > bound:
+            return (f"{len(io_['flags'])} kernel calls on the implementation exceed the bound records + 2 + regrowthBound = {bound} "
+                    f"of window_chunking_unobservable")
         return None
     if op == "csv_import":
         if io_["rows"] != m["rows"]:
@@ -634,6 +718,7 @@ def classify(case, mo):
         tags.append("calls=1" if len(calls) <= 1 else ("calls=2-3" if len(calls) <= 3 else "calls>=4"))
         if any(c == 0 for c in calls[1:]):
             tags.append("zero-row-call")
+        tags.extend(regrowth_tags(mo["ok"].get("flags", []), calls))
     if case["op"] == "csv_kernel" and mo and "ok" in mo:
         if mo["ok"]["vals_full"]:
             tags.append("vals-full")
@@ -641,6 +726,60 @@ def classify(case, mo):
             tags.append("inds-full")
     if case["op"] != "csv_kernel" and Q in case["file"]:
         tags.append("quoted")
+    return tags
+
+
+def _larger_factor():
+    """`larger_factor` of the driver as tools/translate_csv.py regenerated it (Gen/CsvConstants.lean)"""
+    import re
+    from checks import lib
+    m = re.search(r"def LARGER_FACTOR : Nat := (\d+)", (lib.LEAN / "Exetera" / "Gen" / "CsvConstants.lean").read_text())
+    return int(m.group(1)) if m else 2
+
+
+def need(b, t, _f=[]):
+    """Lemmas/CsvLines.lean `need`: number of regrowths (multiplications by larger_factor) after which b exceeds t"""
+    if not _f:
+        _f.append(max(2, _larger_factor()))
+    n = 0
+    while 0 < b <= t:
+        b, n = _f[0] * b, n + 1
+    return n
+
+
+def call_bound(case):
+    """the call bound of Props.C05.window_chunking_unobservable (records + 2 + regrowthBound) for a driver case inside the
+    theorem's hypotheses (well-formed rectangular file, supported regime, budgets >= 1); None outside them"""
+    data, ncols, offs = bytes(case["file"]), case["ncols"], case["offs"]
+    ref = parse_ref(data)
+    if not data or ref is None or not ref or any(len(r) != ncols for r in ref) or not supported(data, case["crs"], ncols):
+        return None
+    if any(offs[c + 1] - offs[c] < 1 for c in range(ncols)):
+        return None
+    recs = ref[1:]
+    return (len(recs) + 2 + need(2 * case["crs"], len(recs))
+            + sum(need(offs[c + 1] - offs[c], sum(len(r[c]) for r in recs)) for c in range(ncols)))
+
+
+def regrowth_tags(flags, calls):
+    """coverage of the regrowth path, from the model's per-call full flags: how often each buffer was enlarged in the run and the
+    longest ladder of value-buffer doublings without a completed record in between (a cell >= 2^k budgets)"""
+    tags = []
+    ni, nv = flags.count(1), flags.count(2)
+    if ni:
+        tags.append("regrow-inds=%d" % ni)        # at most 1 in the supported regime (a window holds <= 2*crs records)
+    if nv:
+        tags.append("regrow-vals=" + (str(nv) if nv <= 3 else "4+"))
+    if ni and nv:
+        tags.append("regrow-both")
+    run = best = 0
+    for f, c in zip(flags, calls):
+        run = run + 1 if (f == 2 and c == 0) else 0
+        best = max(best, run)
+    if best >= 2:
+        tags.append("regrow-vals-ladder=" + (str(best) if best <= 3 else "4+"))
+    if any(f != 0 for f in flags[:1]):
+        tags.append("regrow-in-header-window-first-call")
     return tags
 
 
